@@ -63,11 +63,28 @@ fn chk(c: &mut Ctx, added: u32, deleted: u32, prompts: &[(String, String, u32, u
         Err(p) => c.fail("stats_from_authorship_log", "safety", input, p, "no panic".into()),
     }
 }
+fn chk_overlap(c: &mut Ctx, r: (u32, Option<u32>), added: &[u32]) {
+    if !added.windows(2).all(|w| w[0] < w[1]) { return; }
+    c.evaluated += 1;
+    let range = match r.1 { None => LineRange::Single(r.0), Some(e) => LineRange::Range(r.0, e) };
+    let input = format!("O;{};{};{}", r.0, r.1.map(|e| e.to_string()).unwrap_or("-".into()), added.iter().map(|x| x.to_string()).collect::<Vec<_>>().join(","));
+    let (lo, hi) = (r.0, r.1.unwrap_or(r.0));
+    let want = added.iter().filter(|&&x| lo <= x && x <= hi).count() as u32;
+    match guarded(|| line_range_overlap_len(&range, added)) {
+        Ok(g) => if g != want { c.fail("line_range_overlap_len", "ensures#0", input, g.to_string(), format!("{} added lines inside the range", want)); },
+        Err(p) => c.fail("line_range_overlap_len", "safety", input, p, "no panic".into()),
+    }
+}
 fn main() {
     std::panic::set_hook(Box::new(|_| {}));
     let a: Vec<String> = std::env::args().collect();
     let mut c = Ctx { evaluated: 0, failed: Default::default() };
     if a[1] == "search" {
+        let vals = [1u32, 2, 3, 5, 6, 9, u32::MAX - 1, u32::MAX];
+        for mask in 0u32..(1 << 8) {
+            let added: Vec<u32> = (0..8).filter(|i| mask >> i & 1 == 1).map(|i| vals[i]).collect();
+            for &x in &[0u32, 1, 2, 4, 5, 9, 10, u32::MAX] { chk_overlap(&mut c, (x, None), &added); for &y in &[0u32, 1, 3, 5, 9, u32::MAX] { chk_overlap(&mut c, (x, Some(y)), &added); } }
+        }
         let mut g = Rng(a[3].parse::<u64>().unwrap_or(0).wrapping_mul(0x9E3779B97F4A7C15) ^ 0x2545F4914F6CDD1D);
         for round in 0..20000u32 {
             let np = g.below(3) as usize;
@@ -83,6 +100,12 @@ fn main() {
         }
     } else {
         let p: Vec<&str> = a[3].split(';').collect();
+        if p[0] == "O" {
+            let added: Vec<u32> = if p[3].is_empty() { vec![] } else { p[3].split(',').map(|x| x.parse().unwrap()).collect() };
+            chk_overlap(&mut c, (p[1].parse().unwrap(), if p[2] == "-" { None } else { Some(p[2].parse().unwrap()) }), &added);
+            println!("DONE evaluated={}", c.evaluated);
+            return;
+        }
         let prompts: Vec<(String, String, u32, u32, u32)> = p[2].split_whitespace().map(|t| { let q: Vec<&str> = t.split(':').collect(); (q[0].to_string(), q[1].to_string(), q[2].parse().unwrap(), q[3].parse().unwrap(), q[4].parse().unwrap()) }).collect();
         let by: Vec<(String, u32)> = p.get(3).unwrap_or(&"").split_whitespace().map(|t| { let i = t.rfind('=').unwrap(); (t[..i].to_string(), t[i + 1..].parse().unwrap()) }).collect();
         chk(&mut c, p[0].parse().unwrap(), p[1].parse().unwrap(), &prompts, &by);
